@@ -127,6 +127,26 @@ static int run(const ZI* const* full, int nfull, int mk) {
     if (!pmgr.createForTimeZoneData(d).isError()) fail("id absent from the registry restored to a non-error zone after another zone used the cache");
     nsave += 4;
   }
+  // histories: two directly created zones share one processor; each is saved after the other one used the processor.
+  // The saved id must be the zone's own (taken from the zone record), and restoring gives that zone
+  {
+    ZP shared;
+    for (int i = 0; i + 1 < nfull; i += 2) {
+      TimeZone a = TimeZone::forZoneInfo(full[i], &shared);
+      TimeZone b = TimeZone::forZoneInfo(full[i + 1], &shared);
+      a.getUtcOffset((acetime_t) 200000000);
+      b.getUtcOffset((acetime_t) 200000000);          // the processor is now bound to b
+      TimeZoneData da = a.toTimeZoneData();
+      if (da.type != TimeZoneData::kTypeZoneId || da.zoneId != ZONE(full[i]).zoneId()) fail("zone saved after another zone used the shared processor carries a foreign id");
+      if (a.getZoneId() != ZONE(full[i]).zoneId()) fail("getZoneId of a zone sharing its processor is not the zone's own id");
+      TimeZone r = mgr.createForTimeZoneData(da);
+      TimeZone own = mgr.createForZoneIndex((uint16_t) i);
+      if (!(r == own)) fail("zone saved while its shared processor was bound elsewhere restores to a different zone");
+      TimeZoneData db = b.toTimeZoneData();
+      if (db.zoneId != ZONE(full[i + 1]).zoneId()) fail("saved id of the zone bound last is not its own");
+      nsave += 2;
+    }
+  }
   // manual zones: grid plus int16 boundaries; error zone
   static const int stds[] = {-32767, -961, -960, -959, -720, -480, -1, 0, 1, 330, 345, 765, 840, 960, 961, 32767};
   static const int dsts[] = {-32767, -60, -1, 0, 30, 60, 120, 32767};
